@@ -382,6 +382,12 @@ def run(ctx):
     else:
         hists = [c for c in ctx.corpus if "len" in c] + [gen_history(ctx.rng) for _ in range(120 if ctx.quick() else 2500)]
         cfgs = [c for c in ctx.corpus if "len" not in c] + [tu.gen_config(ctx.rng) for _ in range(6 if ctx.quick() else 60)]
+        # solver tasks that finish OUT OF ORDER (a later cluster's task before an earlier one's, >= 3 clusters): the state
+        # the optimise phase hands on must still have cluster k in slot k
+        for comp in (["reverse", "rotate", 5] if ctx.quick() else ["reverse", "rotate"] + list(range(12))):
+            cfg = tu.gen_config(ctx.rng)
+            cfg.update({"K": ctx.rng.choice([3, 4]), "completion": comp, "limit": max(2, cfg["limit"])})
+            cfgs.append(cfg)
 
     check_histories(ctx, hists, cm, gl, cla, arguments, model_state)
 
